@@ -51,13 +51,14 @@ COMPONENTS_STUB = ["thread scheduling (baton; real threads, one runnable)",
 ASSUMPTIONS = ["pre-emption points = line events in the watched files and "
                "lock operations"]
 
-FAMS = ["rsa", "cache", "verifierdb", "cache_seq", "cache", "rsa"]
+FAMS = ["rsa", "cache", "verifierdb", "cache_seq", "cache", "rsa",
+        "verifierdb", "verifierdb"]
 WATCH = ("tlslite/utils/python_rsakey.py", "tlslite/sessioncache.py",
          "tlslite/basedb.py", "tlslite/verifierdb.py")
 
 
 def plan(tier, base_seed):
-    n = {"quick": 1500, "thorough": 400000}[tier]
+    n = {"quick": 2400, "thorough": 400000}[tier]
     jobs = [{"seed": base_seed * 1000003 + i, "fam": FAMS[i % len(FAMS)]}
             for i in range(n)]
     for j in jobs[:4]:
@@ -389,8 +390,10 @@ def run_vdb(ch, seed, v, probes):
             if total >= 11:
                 break
             total += 1
-            kind = ["set", "get", "has", "del", "keys"][ch.draw(5, "v.kind")]
-            u = users[ch.draw(3, "v.user")]
+            kind = ["set", "get", "has", "del", "keys", "get", "set",
+                    "get"][ch.draw(8, "v.kind")]
+            # most operations meet on one user
+            u = users[[0, 0, 1, 2][ch.draw(4, "v.user")]]
             if kind == "set":
                 uniq[0] += 1
                 val = uniq[0]
